@@ -3,6 +3,7 @@ printer shared with the C08 driver).  Every request carries the dictionary state
 
   lit <default|-> <list of [k,v]>      idx|sidx|in|rem|addk|delk <dict> <key>
   set <dict> <key> <value>             opa <dict> <key> <pair|left|right|fail> <value>
+  opar <dict> <key> <op> <get|sget|in|len|self> <key2>   `d[key] op= <rhs reading d>`
   union|inter|diff|uadd|eq|ne <a> <b>     insp <dict> <pair>
   mkset|mkdict|uniq|freq|cdist|group|classify|memo <list>    memoc <list of argument tuples>
   keys|values|items|len <dict>
@@ -64,6 +65,10 @@ def handle (args : List String) : String :=
   | ["set", d, k, v] =>
     match parseVal d, parseVal k, parseVal v with
     | some d, some k, some v => both fun h => DictOps.setIndex h d k v
+    | _, _, _ => "bad-op"
+  | ["opar", d, k, f, form, k2] =>
+    match parseVal d, parseVal k, parseVal k2 with
+    | some d, some k, some k2 => both fun h => DictOps.opAssignRhs h d k f form k2
     | _, _, _ => "bad-op"
   | ["opa", d, k, f, v] =>
     match parseVal d, parseVal k, parseVal v with
